@@ -55,6 +55,10 @@ class _Stub:
         return teststat
 
 
+class StaleCalculator(Exception):
+    pass
+
+
 class _Patched:
     def __init__(self, pyhf, stub):
         import pyhf.infer.calculators as C
@@ -178,6 +182,10 @@ def replay(pyhf, backend, precision, chunk, seed, hypo_every=1, float_probes=0):
                 except Exception as e:  # noqa: BLE001
                     early = type(e).__name__
             t = calc.teststatistic(1.0)
+            if len(stub.calls) != 2 and prev is not None and len(stub0.calls) == 2:
+                # the binding worked for the first scan point of this very object: the second point was not evaluated in full
+                raise StaleCalculator(f"teststatistic evaluated the test statistic {len(stub.calls)} time(s) for the second scan point of a reused "
+                                      "calculator (observed and Asimov statistic are both required for every tested value)")
             if len(stub.calls) != 2:
                 raise BindingBroken(f"binding broken: the get_test_stat stub was called {len(stub.calls)} times by teststatistic (expected 2); "
                                    "teststatistic no longer looks the function up as pyhf.infer.utils.get_test_stat")
